@@ -350,4 +350,6 @@ func TestProp(t *testing.T) {
 	t.Run("schedule", func(t *testing.T) { core.Run(t, schedule) })
 }
 
-func TestReplay(t *testing.T) { core.Replay(t, selectOne, selectGrid, schedule, stress, earlyWaiters, headAtRead) }
+func TestReplay(t *testing.T) {
+	core.Replay(t, selectOne, selectGrid, schedule, stress, earlyWaiters, headAtRead, headOrder)
+}
